@@ -12,7 +12,6 @@
 
   Behaviours of the Go code that the model reproduces on purpose (see the report of the port):
     * MatchField.Len counts 4 bytes for a non-zero ExperimenterID, MarshalBinary never writes the id
-    * IPv6FlowLabelField.Len = 3 but its encoder produces 4 bytes (the 4th byte is cut by the container's copy)
     * ArpXHaField.UnmarshalBinary copies into the receiver's slice: nil for new(ArpXHaField) ⇒ the address is lost
     * DecodeMatchField calls UnmarshalBinary on a nil interface for the NXM_1 fields without a case body and for
       unknown experimenter fields (panic); unknown class ⇒ log.Panicf
@@ -184,7 +183,7 @@ end Ipv6DstField
 
 /- Len() is 3, the encoder writes 4 bytes, the decoder reads 4 bytes -/
 namespace IPv6FlowLabelField
-def lenM (v : V) : R (UInt16 × V) := same 3 v
+def lenM (v : V) : R (UInt16 × V) := same 4 v
 def marshalM (v : V) : R (Bytes × V) :=
   match v with
   | .obj "IPv6FlowLabelField" [.num x] => same (be32 (n32 x)) v
@@ -926,7 +925,7 @@ def ctorsBasic : FuncTab := [
         ((optArg m).map fun x => .obj "Ipv6DstField" [.bytes x.asBytes]))
     | _ => .panic),
   ("NewIPV6FlowLabelField", fun (args : List V) => match args with
-    | [.num x, m] => ret1 (MatchField.mkMasked OXM_CLASS_OPENFLOW_BASIC OXM_FIELD_IPV6_FLABEL 3
+    | [.num x, m] => ret1 (MatchField.mkMasked OXM_CLASS_OPENFLOW_BASIC OXM_FIELD_IPV6_FLABEL 4
         (.obj "IPv6FlowLabelField" [V.u32 (n32 x)])
         ((optArg m).map fun y => .obj "IPv6FlowLabelField" [V.u32 (n32 y.asNat)]))
     | _ => .panic),
